@@ -176,6 +176,9 @@ def family_rules(ctx, ids):
     fields = set()
     for cls in FAMILY:
         fields |= set(P.cls(RES + cls).all_fields())
+        # plain class attributes (`dt_min = None` in the class body) are configuration too: an instance store shadows them
+        for c in P.cls(RES + cls).mro():
+            fields |= {a for a in c.class_attrs if not a.startswith("__")}
     n_methods = 0
     # private helpers that are only ever called from inside the package are not entry points of a call history:
     # they are analysed, inlined, as part of the public methods that call them
